@@ -878,8 +878,8 @@ Qed.
 (* blob push under a context ending at tc: POST and PUT requests other than the first of a
    send start before tc, the push is over at tc, and a pause the context ends in ends the
    push with the context's error *)
-Lemma blob_push_cancel authc p bd sc tc dl :
-  let u := blob_push authc p (Some (tc, dl)) bd sc in
+Lemma blob_push_cancel authc warm0 p bd sc tc dl :
+  let u := blob_push_gen authc warm0 p (Some (tc, dl)) bd sc in
   sends_cancel_post tc 0 (u_res u) (u_time u) (u_post u) /\
   u_time u <= Z.max 0 tc /\
   match u_put u with
@@ -887,7 +887,7 @@ Lemma blob_push_cancel authc p bd sc tc dl :
   | None => True
   end.
 Proof.
-  unfold blob_push.
+  unfold blob_push_gen.
   assert (Hpost : let post := if authc then auth_do_at false p (Some (tc, dl)) no_body sc 0
                               else plain_do_at p (Some (tc, dl)) no_body sc 0 in
                   sends_cancel_post tc 0 (a_res post) (a_time post) post).
@@ -900,14 +900,14 @@ Proof.
   pose proof (sends_pauses_done _ _ _ Hpost (accepted_not_ctx _ Hacc)) as Dp.
   destruct Hpost as (A1 & A2 & A3 & Tp & _).
   set (sc' := skipn (length (auth_attempts post)) sc).
-  assert (Hput : let put := if authc && negb match attempts (a_second post) with [] => false | _ :: _ => true end
+  assert (Hput : let put := if authc && negb (warm0 || match attempts (a_second post) with [] => false | _ :: _ => true end)
                             then auth_do_at false p (Some (tc, dl)) bd sc' (a_time post)
                             else plain_do_at p (Some (tc, dl)) bd sc' (a_time post) in
                  sends_cancel_post tc (a_time post) (a_res put) (a_time put) put).
-  { destruct (authc && negb match attempts (a_second post) with [] => false | _ :: _ => true end);
+  { destruct (authc && negb (warm0 || match attempts (a_second post) with [] => false | _ :: _ => true end));
       [apply auth_do_at_cancel|apply plain_do_at_cancel]. }
   cbv zeta in Hput.
-  set (put := if authc && negb match attempts (a_second post) with [] => false | _ :: _ => true end
+  set (put := if authc && negb (warm0 || match attempts (a_second post) with [] => false | _ :: _ => true end)
               then auth_do_at false p (Some (tc, dl)) bd sc' (a_time post)
               else plain_do_at p (Some (tc, dl)) bd sc' (a_time post)) in *.
   split; [|split].
@@ -960,36 +960,36 @@ Qed.
 (* blob push: every request of the PUT -- first attempt, retries, re-send after a challenge --
    carries the blob as far as the registry reads it; the script position of the PUT's
    requests starts after the POST's *)
-Lemma blob_push_bodies authc p cn bd sc :
+Lemma blob_push_bodies authc warm0 p cn bd sc :
   wf_body bd ->
-  match u_put (blob_push authc p cn bd sc) with
-  | Some put => bodies_ok bd sc (length (auth_attempts (u_post (blob_push authc p cn bd sc)))) (auth_attempts put)
+  match u_put (blob_push_gen authc warm0 p cn bd sc) with
+  | Some put => bodies_ok bd sc (length (auth_attempts (u_post (blob_push_gen authc warm0 p cn bd sc)))) (auth_attempts put)
   | None => True
   end.
 Proof.
-  intro Hwf. unfold blob_push.
+  intro Hwf. unfold blob_push_gen.
   set (post := if authc then auth_do_at false p cn no_body sc 0 else plain_do_at p cn no_body sc 0).
   destruct (accepted (a_res post)); cbn [u_put u_post]; [|exact I].
-  destruct (authc && negb match attempts (a_second post) with [] => false | _ :: _ => true end).
+  destruct (authc && negb (warm0 || match attempts (a_second post) with [] => false | _ :: _ => true end)).
   - apply auth_do_at_bodies_gen. exact Hwf.
   - apply plain_do_at_bodies_gen. exact Hwf.
 Qed.
 
 (* a one-shot blob is sent once by the PUT; nothing truncated is ever re-sent *)
-Lemma blob_push_not_replayable authc p cn bd sc :
+Lemma blob_push_not_replayable authc warm0 p cn bd sc :
   (forall st', rewind bd st' = RwNoGetBody \/ rewind bd st' = RwGetBodyErr) ->
-  match u_put (blob_push authc p cn bd sc) with
+  match u_put (blob_push_gen authc warm0 p cn bd sc) with
   | Some put => length (auth_attempts put) = 1%nat
   | None => True
   end.
 Proof.
-  intro Hrw. unfold blob_push.
+  intro Hrw. unfold blob_push_gen.
   set (post := if authc then auth_do_at false p cn no_body sc 0 else plain_do_at p cn no_body sc 0).
   destruct (accepted (a_res post)); cbn [u_put]; [|exact I].
   set (sc' := skipn (length (auth_attempts post)) sc).
   destruct (round_trip_not_replayable p cn bd (init_state bd) sc' (a_time post) Hrw)
     as (bh & sc'' & got & st1 & o & t1 & _ & _ & Htr & _).
-  destruct (authc && negb match attempts (a_second post) with [] => false | _ :: _ => true end).
+  destruct (authc && negb (warm0 || match attempts (a_second post) with [] => false | _ :: _ => true end)).
   - unfold auth_do_at, auth_attempts.
     set (o1 := round_trip p cn bd (init_state bd) sc' (a_time post)) in *.
     destruct (challenged (o_res o1)).
